@@ -46,13 +46,19 @@ type vDef struct {
 // Function(name) return the package-scope object of that name - never a
 // function-local declaration or a type parameter; MethodsOf(T, true) is exactly
 // T's declared methods and MethodsOf(T, false) those with value receivers.
-func Verif_C13_Tables(k int) { vTables(k, false) }
+func Verif_C13_Tables(k int) { vTables(k, false, false) }
 
 // Verif_C13_TablesGeneric: the same with an additional generic type G[P any]
 // that symbolically has a value-receiver and a pointer-receiver method.
-func Verif_C13_TablesGeneric(k int) { vTables(k, true) }
+func Verif_C13_TablesGeneric(k int) { vTables(k, true, false) }
 
-func vTables(k int, withGeneric bool) {
+// Verif_C13_TablesMany: a package with k Defs entries (k up to 40) whose kinds
+// cycle through all kinds with distinct names N0, N1, ...; one entry (case split
+// over every position) has a symbolic kind and, symbolically, the name of
+// another entry (a function-local declaration shadowing a package-scope name).
+func Verif_C13_TablesMany(k int) { vTables(k, true, true) }
+
+func vTables(k int, withGeneric bool, sparse bool) {
 	tpkg := types.NewPackage("example.com/m/p", "p")
 	fset := token.NewFileSet()
 	local := types.NewScope(tpkg.Scope(), token.NoPos, token.NoPos, "function body")
@@ -66,11 +72,28 @@ func vTables(k int, withGeneric bool) {
 	made = append(made, vDef{vkPkgType, "T", tObj})
 	taken := map[string]bool{"T": true, "G": true} // names already declared at package scope
 	noSig := types.NewSignatureType(nil, nil, nil, nil, nil, false)
+	symPos := -1
+	if sparse {
+		symPos = verifsym.IntRange(0, k-1)
+	}
+	vName := func(i int) string { return "N" + string([]byte{'0' + byte(i/10), '0' + byte(i%10)}) }
 	for i := 0; i < k; i++ {
-		kind := verifsym.IntRange(0, vkNumKinds-1)
-		name := "A"
-		if verifsym.Bool() {
-			name = "B"
+		var kind int
+		var name string
+		if sparse {
+			kind, name = i%vkNumKinds, vName(i)
+			if i == symPos {
+				kind = verifsym.IntRange(0, vkNumKinds-1)
+				if verifsym.Bool() {
+					name = vName((i + vkNumKinds) % k)
+				}
+			}
+		} else {
+			kind = verifsym.IntRange(0, vkNumKinds-1)
+			name = "A"
+			if verifsym.Bool() {
+				name = "B"
+			}
 		}
 		pos := token.Pos(10 + i)
 		var obj types.Object
